@@ -348,6 +348,24 @@ theorem FullRank.unscale {Z : Matrix ι ν K} (hZ : FullRank Z) {scale : ν → 
   exact ⟨h1, rfl⟩
 
 
+
+/-! ### full-rank completion of the Jacobian (growing phase) -/
+
+/-- if the completed Jacobian `Jn` acts like the fitted one on every direction `y_t − xopt`
+    (the completion only adds components orthogonal to the interpolation directions), the
+    completed model — with the constant term recomputed from `Jn` — still interpolates. -/
+theorem fitCompleted_interpolates (s : IModel K ι ν μ) (dg : Matrix (Option ν) μ K) (Jn : Matrix μ ν K)
+    (hfit : Interpolates s.Y s.F (modelConst dg s.xopt) (modelJac dg))
+    (hJn : ∀ t, Jn *ᵥ (s.Y t - s.xopt) = modelJac dg *ᵥ (s.Y t - s.xopt)) :
+    Interpolates s.Y s.F (s.fitCompleted dg Jn).c (s.fitCompleted dg Jn).J := by
+  intro t
+  rw [← hfit t]
+  funext i
+  have h := congrFun (hJn t) i
+  simp only [Matrix.mulVec_sub, Pi.sub_apply] at h
+  simp only [IModel.fitCompleted, modelVal, modelConst, Pi.add_apply]
+  linear_combination h
+
 /-! ### `n+1` points: the square system -/
 
 /-- `n+1` points (`e : ι ≃ Option ν`) with a nonsingular interpolation matrix: the normal equations
